@@ -14,7 +14,9 @@ MODULES = {
     "C01": "props_trace",
     "C02": "props_trace",
     "C03": "props_trace",
+    "C04": "props_c04",
     "C07": "props_trace",
+    "C10": "props_c10",
     "C16": "props_c16",
 }
 
